@@ -16,7 +16,9 @@ RULE = (
     "overwrite policy over disjoint / overlapping existing data and both "
     "engines, Sampler) x shuffle x batch request x which of grow / reap use a "
     "Crop rebuilt from disk x (harvesters) another session harvesting an "
-    "unrelated region into the same file between sow and reap; compared with the direct call on a twin farmer; "
+    "unrelated region into the same file between sow and reap x an earlier "
+    "complete round (other values, shuffled) through the same Crop object x "
+    "shuffle given to the constructor; compared with the direct call on a twin farmer; "
     "non-trivial = >= 2 settings and >= 2 batches"
 )
 ASSUMPTIONS = [
@@ -59,6 +61,16 @@ def cases(tier, seed):
             yield {"desc": desc, "farmer": far, "kind": kind, "n": n,
                    "mode": mode, "req": req, "shuffle": shuffle, "reload": rl,
                    "policy": pol}
+            if pol in (None, (None, None), (None, "disjoint")) and (
+                    tier == "thorough" or h == 3):
+                yield {"desc": desc, "farmer": far, "kind": kind, "n": n,
+                       "mode": mode, "req": req, "shuffle": shuffle,
+                       "reload": rl, "policy": pol, "preround": True}
+            if far != "sampler" and kind != "cases" and rl % 2 == 0 and (
+                    tier == "thorough" or h == 0):
+                yield {"desc": desc, "farmer": far, "kind": kind, "n": n,
+                       "mode": mode, "req": req, "shuffle": shuffle,
+                       "reload": rl, "policy": pol, "ctor": True}
             if far.startswith("harv") and (tier == "thorough" or h == 0):
                 yield {"desc": desc, "farmer": far, "kind": kind, "n": n,
                        "mode": mode, "req": req, "shuffle": shuffle,
@@ -216,7 +228,7 @@ def check_case(case):
                                 for a, v in list(combos)[::-1]})
         return r
 
-    def direct(farmer, overwrite=None):
+    def direct(farmer, overwrite=None, dcombos=dcombos, dcases=dcases):
         if far == "sampler":
             return farmer.sample_combos(n, verbosity=0)
         kw = dict(verbosity=0)
@@ -270,12 +282,26 @@ def check_case(case):
     if far.startswith("harv"):
         seed_existing(farmer, how)
         seed_existing(twin, how)
+    # an earlier complete round (other values, shuffled) through the very
+    # same Crop object; the reference does the same round directly
+    pre = case.get("preround")
+    pcombos, pcases = dcombos, dcases
+    if pre:
+        if kind == "grid":
+            a0 = list(dcombos)[0]
+            pcombos = dict(dcombos)
+            pcombos[a0] = [x + 50 for x in dcombos[a0]]
+        else:
+            pcases = [tuple(x + 50 for x in c) for c in dcases]
+        builtins._xv_draws = {}
+        direct(twin, dcombos=pcombos, dcases=pcases)
+        twin_draws = dict(builtins._xv_draws)
     late = far.startswith("harv") and case.get("late")
     if late:
         # (the reference goes through one object throughout)
         seed_existing(twin, "late")
     # ---- twin: the direct run ---------------------------------------------
-    builtins._xv_draws = {}
+    builtins._xv_draws = dict(twin_draws) if pre else {}
     try:
         want = direct(twin, overwrite=pol)
         direct_err = None
@@ -289,7 +315,28 @@ def check_case(case):
     B = 0
     rcrop = None
     try:
-        crop = farmer.Crop(name="k", parent_dir=d, **kws)
+        if case.get("ctor"):
+            # (a shuffle given to the constructor, a plain sow afterwards)
+            crop = xyz.Crop(farmer=farmer, name="k", parent_dir=d, shuffle=5,
+                            **kws)
+        else:
+            crop = farmer.Crop(name="k", parent_dir=d, **kws)
+        if pre:
+            if far == "sampler":
+                crop.sow_samples(n, verbosity=0)
+            elif kind == "grid":
+                crop.sow_combos(pcombos, shuffle=True, verbosity=0)
+            elif kind == "mix":
+                crop.sow_combos(pcombos, cases=[dict(zip(fn_args, c))
+                                                for c in pcases],
+                                shuffle=True, verbosity=0)
+            else:
+                crop.sow_cases(fn_args, pcases, verbosity=0)
+            crop.grow_missing(verbosity=0)
+            if far == "runner-df":
+                crop.reap_runner(crop.farmer, to_df=True)
+            else:
+                crop.reap()
         if far == "sampler":
             crop.sow_samples(n, verbosity=0)
         elif kind == "grid":
